@@ -91,8 +91,8 @@ impl ExopResult {
 //@lift name=ExopResult::success file=src/result.rs impl="impl\s+ExopResult\s*\{" fn=success
 //@ ret r
 //@ spec
-    ensures (self.1.rc == 0) ==> r == Ok::<(Exop, LdapResult), LdapError>((self.0, self.1)), //# C03.exop_success_iff_rc_0
-            (self.1.rc != 0) ==> r == Err::<(Exop, LdapResult), LdapError>(LdapError::LdapResult { result: self.1 }),
+    ensures (self.1.rc == 0) ==> r == Ok::<(Exop, LdapResult), LdapError>((self.0, self.1)), //# C03+C17.exop_success_iff_rc_0
+            (self.1.rc != 0) ==> r == Err::<(Exop, LdapResult), LdapError>(LdapError::LdapResult { result: self.1 }), //# C03+C17.exop_success_is_err_for_every_other_code
 //@end
 //@lift name=ExopResult::non_error file=src/result.rs impl="impl\s+ExopResult\s*\{" fn=non_error
 //@ ret r
@@ -154,7 +154,7 @@ pub open spec fn last_prim(s: Seq<StructureTag>, n: int, id: u64) -> Option<Seq<
 //@ spec
     ensures
         r is Some <==> wf_refs(t), //# C11.malformed_referral_is_rejected_not_a_panic
-        r matches Some(v) ==> strs(v@) == uris_of(t), //# C03.referral_uris_in_order
+        r matches Some(v) ==> strs(v@) == uris_of(t), //# C03+C10.referral_uris_in_order
 //@end
 
 //@lift name=parse_refs file=src/search.rs fn=parse_refs
